@@ -108,7 +108,7 @@ class PilSeams:
         Image.open = open_
         wrap(Image, "new", "new")
         wrap(Image, "frombytes", "frombytes")
-        for meth in ("convert", "resize", "save", "tobytes", "seek", "alpha_composite"):
+        for meth in ("convert", "resize", "save", "tobytes", "alpha_composite"):
             wrap(Image.Image, meth, meth)
         orig_close = Image.Image.close
         me.closed_ids = []
@@ -124,10 +124,23 @@ class PilSeams:
         Image.Image.close = close
         # format plugins override seek(): wrap the concrete classes the sources use
         from PIL import GifImagePlugin, WebPImagePlugin, PngImagePlugin
+
+        def wrap_seek(owner):
+            orig = owner.__dict__["seek"]
+
+            def seek(self_, frame, *a, **kw):
+                # the library probes for the end of an animation by seeking one past the last
+                # frame and expects PIL's own EOFError there: that call fails by design, so it
+                # is not a fault site
+                if not me.suspended and 0 <= frame < getattr(self_, "n_frames", 1):
+                    k.seam("pil.seek")
+                return orig(self_, frame, *a, **kw)
+            self.saved.append((owner, "seek", orig))
+            owner.seek = seek
         for cls in (GifImagePlugin.GifImageFile, WebPImagePlugin.WebPImageFile,
                     PngImagePlugin.PngImageFile):
             if "seek" in cls.__dict__:
-                wrap(cls, "seek", "seek")
+                wrap_seek(cls)
         return self
 
     def __exit__(self, *a):
@@ -348,6 +361,61 @@ def run(ch, ctx, fault=None):
             imgs.append(d)
             return d, desc
 
+        def do_next(itd):
+            """one next() on a live iterator, checked against the frame model"""
+            im = itd["img"]
+            desc = "next(%s)" % itd["desc"]
+            # model: frames 0..n-1 per pass (or the frame chosen by seek)
+            if itd["closed"]:
+                want = "stop"
+            else:
+                if itd["pos"] >= im["n"]:
+                    itd["pos"] = 0
+                    itd["pass"] += 1
+                want = "stop" if 0 < itd["repeat"] <= itd["pass"] else itd["pos"]
+            try:
+                frame = next(itd["it"])
+            except StopIteration:
+                desc += " -> StopIteration"
+                check(want == "stop", "iteration_ended_before_repeat_count",
+                      {"iterator": itd["desc"], "passes": itd["pass"],
+                       "expected_frame": want}, "next")
+                if not itd["closed"]:
+                    ctx.probe("iterator_exhausted")
+                    if not im["image"].closed:
+                        check(im["image"].tell() == 0,
+                              "current_frame_not_zero_after_exhaustion",
+                              {"tell": im["image"].tell(), "iterator": itd["desc"]},
+                              "next")
+                itd["closed"] = True
+            else:
+                check(want != "stop", "frame_yielded_after_documented_end",
+                      {"iterator": itd["desc"], "passes": itd["pass"]}, "next")
+                itd["started"] = True
+                j = want
+                desc += " -> frame %d" % j
+                check(im["image"].tell() == j, "current_frame_does_not_track_iteration",
+                      {"tell": im["image"].tell(), "expected": j, "iterator": itd["desc"]},
+                      "next")
+                # PIL decodes GIF frames into a mode (RGB / RGBA) that depends on which
+                # earlier frames happened to be loaded, so byte equality with a twin
+                # that has a different access history is only meaningful for formats
+                # whose frames decode independently (WebP)
+                if "+A" not in itd["spec"] and im["fmt"] == "WEBP":
+                    pil.suspended += 1
+                    try:
+                        im["twin"].seek(j)
+                        ref = format(im["twin"], itd["spec"])
+                    finally:
+                        pil.suspended -= 1
+                    ctx.probe("frame_equals_direct_format")
+                    check(frame == ref, "iterated_frame_differs_from_direct_format",
+                          {"frame": j, "pass": itd["pass"], "spec": itd["spec"],
+                           "iterator": itd["desc"], "got": frame[:160],
+                           "expected": ref[:160]}, "next")
+                itd["pos"] = j + 1
+            return desc
+
         n_ops = ch.int("n_ops", 3, ctx.cfg["max_ops"])
         for i in range(n_ops):
             choices_ = [(3 if len(imgs) < 2 else 0, "construct")]
@@ -355,15 +423,15 @@ def run(ch, ctx, fault=None):
                 choices_ += [(2, "str"), (2, "format"), (2, "draw"), (3, "iterate"), (1, "nframes"),
                              (1, "imgseek"), (1, "imgclose"), (1, "with"), (2, "setsize")]
             if iters:
-                choices_ += [(9, "next"), (3, "seek"), (2, "itclose"), (2, "abandon")]
+                choices_ += [(9, "next"), (4, "pass"), (3, "seek"), (2, "itclose"), (2, "abandon")]
             op = ch.weighted("op", [c for c in choices_ if c[0]])
             desc = op
             site = op
             exc = None
             fired0 = k.fault_done
-            d = ch.pick("img", imgs) if imgs and op not in ("construct", "next", "seek", "itclose",
-                                                           "abandon") else None
-            itd = ch.pick("iter", iters) if iters and op in ("next", "seek", "itclose",
+            d = ch.pick("img", imgs) if imgs and op not in ("construct", "next", "pass", "seek",
+                                                           "itclose", "abandon") else None
+            itd = ch.pick("iter", iters) if iters and op in ("next", "pass", "seek", "itclose",
                                                             "abandon") else None
             expected_http_failure = None
             try:
@@ -416,8 +484,15 @@ def run(ch, ctx, fault=None):
                 elif op == "setsize":
                     if d["image"].closed:
                         continue
-                    kind_ = ch.pick("szk", ("width", "both", "member"))
-                    if kind_ == "width":
+                    hist = d.setdefault("size_history", [d["size0"]])
+                    kind_ = ch.pick("szk", ("width", "both", "member", "earlier", "earlier"))
+                    if kind_ == "earlier":
+                        # going back to a size used before (A -> B -> A) is what exposes
+                        # stale cache entries
+                        prev = ch.pick("prev", hist)
+                        d["image"].size = prev
+                        desc = "%s.size = %r (used before)" % (d["desc"], prev)
+                    elif kind_ == "width":
                         v = ch.int("nw", 1, min(8, cols))
                         d["image"].set_size(width=v)
                         desc = "%s.set_size(width=%d)" % (d["desc"], v)
@@ -430,6 +505,8 @@ def run(ch, ctx, fault=None):
                         d["image"].size = getattr(ti_image.Size, mname)
                         desc = "%s.size = Size.%s" % (d["desc"], mname)
                     d["size0"] = d["image"].size
+                    if d["size0"] not in hist:
+                        hist.append(d["size0"])
                     if "twin" in d:
                         d["twin"].size = d["image"].size
                     ctx.probe("image_size_changed_mid_iteration")
@@ -458,58 +535,16 @@ def run(ch, ctx, fault=None):
                         d["image"].close()
                     check(d["image"].closed, "image_not_closed", {"op": desc}, op)
                 elif op == "next":
-                    im = itd["img"]
-                    desc = "next(%s)" % itd["desc"]
                     site = "next"
-                    # model: frames 0..n-1 per pass (or the frame chosen by seek)
-                    if itd["closed"]:
-                        want = "stop"
-                    else:
-                        if itd["pos"] >= im["n"]:
-                            itd["pos"] = 0
-                            itd["pass"] += 1
-                        want = "stop" if 0 < itd["repeat"] <= itd["pass"] else itd["pos"]
-                    try:
-                        frame = next(itd["it"])
-                    except StopIteration:
-                        desc += " -> StopIteration"
-                        check(want == "stop", "iteration_ended_before_repeat_count",
-                              {"iterator": itd["desc"], "passes": itd["pass"],
-                               "expected_frame": want}, "next")
-                        if not itd["closed"]:
-                            ctx.probe("iterator_exhausted")
-                            if not im["image"].closed:
-                                check(im["image"].tell() == 0,
-                                      "current_frame_not_zero_after_exhaustion",
-                                      {"tell": im["image"].tell(), "iterator": itd["desc"]},
-                                      "next")
-                        itd["closed"] = True
-                    else:
-                        check(want != "stop", "frame_yielded_after_documented_end",
-                              {"iterator": itd["desc"], "passes": itd["pass"]}, "next")
-                        itd["started"] = True
-                        j = want
-                        desc += " -> frame %d" % j
-                        check(im["image"].tell() == j, "current_frame_does_not_track_iteration",
-                              {"tell": im["image"].tell(), "expected": j, "iterator": itd["desc"]},
-                              "next")
-                        # PIL decodes GIF frames into a mode (RGB / RGBA) that depends on which
-                        # earlier frames happened to be loaded, so byte equality with a twin
-                        # that has a different access history is only meaningful for formats
-                        # whose frames decode independently (WebP)
-                        if "+A" not in itd["spec"] and im["fmt"] == "WEBP":
-                            pil.suspended += 1
-                            try:
-                                im["twin"].seek(j)
-                                ref = format(im["twin"], itd["spec"])
-                            finally:
-                                pil.suspended -= 1
-                            ctx.probe("frame_equals_direct_format")
-                            check(frame == ref, "iterated_frame_differs_from_direct_format",
-                                  {"frame": j, "pass": itd["pass"], "spec": itd["spec"],
-                                   "iterator": itd["desc"], "got": frame[:160],
-                                   "expected": ref[:160]}, "next")
-                        itd["pos"] = j + 1
+                    desc = do_next(itd)
+                elif op == "pass":
+                    # a whole pass over the frames in one operation (reaches third passes and
+                    # loop boundaries within the operation budget)
+                    site = "next"
+                    for _ in range(itd["img"]["n"]):
+                        desc = do_next(itd)
+                        if itd["closed"]:
+                            break
                 elif op == "seek":
                     im = itd["img"]
                     pos = ch.int("spos", -1, im["n"]) if ch.bool("badpos", 0.2) else ch.int("spos", 0, im["n"] - 1)
@@ -523,7 +558,10 @@ def run(ch, ctx, fault=None):
                         ok = False
                         got = type(e).__name__
                     valid = 0 <= pos < im["n"]
-                    if not valid:
+                    if im["image"].closed:
+                        check(not ok, "seek_on_iterator_of_a_closed_image_accepted",
+                              {"pos": pos, "iterator": itd["desc"]}, "seek")
+                    elif not valid:
                         check(not ok and got == "ValueError", "out_of_range_seek_accepted",
                               {"pos": pos, "iterator": itd["desc"]}, "seek")
                     elif itd["closed"] or not itd["started"]:
@@ -598,7 +636,7 @@ def run(ch, ctx, fault=None):
                             ctx.probe("fault_in_" + fk)
                         if fault["kind"] == "tmp.write":
                             ctx.probe("temp_write_failed")
-                    if op == "next" and itd is not None:
+                    if op in ("next", "pass") and itd is not None:
                         itd["closed"] = True
                         itd["errored"] = True
                 else:
